@@ -89,4 +89,18 @@ def discoverFrom (root : PathParts) (files : List PathParts) (isTestRun : Bool) 
   | .error e => .error e
   | .ok d => .ok (root', d)
 
+/-- `PurePath.__lt__`/`<=`: the parts compared lexicographically, each part as a string -/
+def partsLe : PathParts → PathParts → Bool
+  | [], _ => true
+  | _ :: _, [] => false
+  | a :: as, b :: bs => if a < b then true else if a = b then partsLe as bs else false
+
+/-- `sorted(root.glob("./**/*.py"))` (repair 67957ce: the files are handed to mypy in sorted order) -/
+def sortPaths (files : List PathParts) : List PathParts := sortBy partsLe files
+
+/-- lines 31-57 as the code runs them now: the enumeration is sorted before the filter loop -/
+def discoverSorted (root : PathParts) (files : List PathParts) (isTestRun : Bool) :
+    Except PyErr (PathParts × Discovered) :=
+  discoverFrom root (sortPaths files) isTestRun
+
 end StubGen
